@@ -85,6 +85,7 @@ type gEpoch struct {
 	bySlot  map[uint64]*gBlock
 	allSigs []solana.Signature
 	twins   int
+	accepted int
 }
 
 type genOpts struct {
@@ -117,6 +118,11 @@ type genOpts struct {
 	TxDataFrames bool
 	// FirstBlockAtStart: no skipped slots before the first block (it sits at Epoch*432000 + FirstSlotAt)
 	FirstBlockAtStart bool
+	// SigAccept / SigAcceptN: the first SigAcceptN transactions of the epoch are re-signed (recent blockhash varied)
+	// until SigAccept(signature) holds — e.g. "another epoch's sig-to-cid index answers this signature" (a 24-bit
+	// hash collision across epochs)
+	SigAccept  func(sig []byte) bool
+	SigAcceptN int
 }
 
 func pp[T any](v T) **T { p := &v; return &p }
@@ -235,6 +241,12 @@ func exactFrame(rng *zz.RNG, want int) []byte {
 // grindSigPrefix re-signs tx (single signer `payer`) with varying recent-blockhash values until the signature starts
 // with `want`.  Deterministic: the smallest counter that works is taken, whatever the number of worker goroutines.
 func grindSigPrefix(tx *solana.Transaction, payer solana.PrivateKey, want [2]byte) {
+	grindSig(tx, payer, func(sig []byte) bool { return sig[0] == want[0] && sig[1] == want[1] })
+}
+
+// grindSig re-signs tx (single signer `payer`) with varying recent-blockhash values until accept(signature) holds.
+// `accept` is called from several goroutines.  Deterministic: the smallest counter that works is taken.
+func grindSig(tx *solana.Transaction, payer solana.PrivateKey, accept func(sig []byte) bool) {
 	msg, err := tx.Message.MarshalBinary()
 	if err != nil {
 		panic(err)
@@ -258,7 +270,7 @@ func grindSigPrefix(tx *solana.Transaction, payer solana.PrivateKey, want [2]byt
 				for c := lo; c < lo+chunk; c++ {
 					binary.LittleEndian.PutUint64(m[off:], c)
 					sig := ed25519.Sign(priv, m)
-					if sig[0] == want[0] && sig[1] == want[1] {
+					if accept(sig) {
 						found[wi] = c
 						return
 					}
@@ -370,6 +382,10 @@ func genEpoch(rng *zz.RNG, dir string, o genOpts) *gEpoch {
 					grindSigPrefix(tx, payer, [2]byte{from[0], from[1]})
 					ge.twins++
 				}
+			}
+			if o.SigAccept != nil && ge.accepted < o.SigAcceptN {
+				grindSig(tx, payer, o.SigAccept)
+				ge.accepted++
 			}
 			ge.allSigs = append(ge.allSigs, tx.Signatures[0])
 			raw, err := tx.MarshalBinary()
